@@ -52,7 +52,18 @@ type desc struct {
 
 type P struct{ x, y int64 }
 
-func orient(a, b, c P) int64 { return (b.x-a.x)*(c.y-a.y) - (c.x-a.x)*(b.y-a.y) }
+// orient: exact while the coordinate differences stay below 2^31; beyond that only the sign is returned
+// (+-1 / 0, from big integers) — every caller uses the sign only
+func orient(a, b, c P) int64 {
+	bx, by, cx, cy := b.x-a.x, b.y-a.y, c.x-a.x, c.y-a.y
+	const lim = 1 << 31
+	if absI(bx) < lim && absI(by) < lim && absI(cx) < lim && absI(cy) < lim {
+		return bx*cy - cx*by
+	}
+	l := new(big.Int).Mul(big.NewInt(bx), big.NewInt(cy))
+	r := new(big.Int).Mul(big.NewInt(cx), big.NewInt(by))
+	return int64(l.Cmp(r))
+}
 
 // in-circle determinant (same expansion as the Go code); exact in int64 for |differences| < 2^13
 func incircle(a, b, c, p P) int64 {
@@ -727,7 +738,7 @@ func runCase(run *hx.Run, d desc, kind string) {
 	} else if gp {
 		gp = len(uniq) <= 140 && generalPositionWide(uniq)
 	}
-	if !gp || !(exactOK(d) || (d.Wide && !d.Dup && wideOK(d))) {
+	if !gp || !(exactOK(d) || (d.Wide && !d.Dup && (wideOK(d) || wideOKBig(d)))) {
 		run.Count("skipped:not-general-position-or-not-exact")
 		return
 	}
@@ -924,6 +935,13 @@ func main() {
 			}
 			continue
 		}
+		if in.Kind == "rung" {
+			var rd rungDesc
+			if err := json.Unmarshal(in.Raw, &rd); err == nil {
+				runRung(run, rd)
+			}
+			continue
+		}
 		var d desc
 		if err := json.Unmarshal(in.Raw, &d); err != nil {
 			continue
@@ -957,6 +975,9 @@ func main() {
 		// its circumcircle ten base lengths away; and the same with the far point first
 		{Pts: [][2]int64{{0, 1000}, {100, 1002}, {51, 1002}, {53, 0}}, Model: true, Wide: true, Gen: "fixed-far"},
 		{Pts: [][2]int64{{53, 0}, {0, 1000}, {100, 1002}, {51, 1002}}, Shift: -12, Model: true, Wide: true, Gen: "fixed-far"},
+		// two points 2 units apart in a set of extent 2^32: the later one is within 1e-9 |edge| of the line through
+		// every long edge at the earlier one; then a point that re-triangulates across the thin triangles
+		{Pts: [][2]int64{{0, 0}, {1 << 32, 5}, {7 << 29, 1 << 32}, {1<<31 + 3, 1<<31 + 11}, {3, 1<<32 - 9}, {1<<31 + 5, 1<<31 + 12}, {1 << 30, 3<<30 + 1}, {3 << 30, 1<<30 + 7}}, Model: true, Wide: true, Gen: "fixed-close-pair"},
 		// two points just inside the bottom hull edge: both flat hull triangles are dropped (one pocket, two vertices)
 		{Pts: [][2]int64{{0, 0}, {4000, 3}, {1200, 2}, {2600, 4}, {900, 3000}, {3100, 2800}, {2000, 1500}}, Model: true, Wide: true, Gen: "fixed-pocket"},
 	} {
@@ -998,7 +1019,24 @@ func main() {
 			runPred(run, genPred(pr))
 		}
 	}
-	{ // one input with more than 256 points (own PRNG stream)
+	{ // the size ladder (own PRNG stream; judged by the Go oracle, see ladder.go)
+		lr := hx.NewRng(run.Seed ^ 0x1adde5)
+		flip := run.Seed%2 == 1
+		rungs := []struct {
+			n       int
+			lattice bool
+		}{{1100, !flip}, {2100, flip}, {4200, !flip}}
+		if run.Tier == "thorough" {
+			rungs = append(rungs, []struct {
+				n       int
+				lattice bool
+			}{{1100, flip}, {1500, false}, {2100, !flip}, {3000, true}, {4200, flip}}...)
+		}
+		for _, g := range rungs {
+			runRung(run, genRung(lr, g.n+lr.Intn(40), g.lattice))
+		}
+	}
+	if run.Tier == "thorough" { // one input of 258-272 points judged by the certified checker in Coq
 		d := genHuge(hx.NewRng(run.Seed ^ 0x4875))
 		d.Spare = 3
 		runCase(run, d, "pts")
@@ -1017,6 +1055,8 @@ func main() {
 			d = genWheel(r, 64)
 		case i%16 == 9: // exactly repeated points (9 is not taken by the i%8 streams above)
 			d = genDup(r)
+		case i%16 == 10: // a point 1-3 units off the line through an edge of length 2^20..2^44, then points across it
+			d = genNearLine(r)
 		case i%16 == 14: // very flat triangles built before distant points inside their huge circumcircles
 			d = genOutlier(r)
 		case i%16 == 15: // two or more points just inside one hull edge (multi-vertex pocket of the known finding)
